@@ -269,3 +269,26 @@ var XMLStrings = []string{
 
 // CRStrings contain carriage returns (XML Char, but normalised by parsers).
 var CRStrings = []string{"a\rb", "a\r\nb", "\r", "end\r"}
+
+// CertVariant issues a fresh self-signed certificate for kp's key with a modified template (CA flag, validity, subject...)
+// and returns its DER in base64. Used for certificates that belong to a known key but are unusual in some respect.
+func CertVariant(kp *KeyPair, mod func(t *x509.Certificate)) string {
+	signer, ok := kp.Key.(crypto.Signer)
+	if !ok {
+		panic("fx: key is not a signer")
+	}
+	tmpl := &x509.Certificate{
+		SerialNumber:          big.NewInt(777001),
+		Subject:               pkix.Name{CommonName: "variant of " + kp.Name, Organization: []string{"verif"}},
+		NotBefore:             time.Date(2000, 1, 1, 0, 0, 0, 0, time.UTC),
+		NotAfter:              time.Date(2100, 1, 1, 0, 0, 0, 0, time.UTC),
+		KeyUsage:              x509.KeyUsageDigitalSignature | x509.KeyUsageKeyEncipherment,
+		BasicConstraintsValid: true,
+	}
+	mod(tmpl)
+	der, err := x509.CreateCertificate(rand.Reader, tmpl, tmpl, signer.Public(), signer)
+	if err != nil {
+		panic(err)
+	}
+	return base64.StdEncoding.EncodeToString(der)
+}
